@@ -51,7 +51,7 @@ func Load(dir string, overlay map[string][]byte) (*Module, error) {
 	}
 	fset := token.NewFileSet()
 	cfg := &packages.Config{
-		Mode:    packages.LoadAllSyntax,
+		Mode:    loadMode(),
 		Dir:     dir,
 		Env:     env,
 		Fset:    fset,
@@ -74,7 +74,14 @@ func Load(dir string, overlay map[string][]byte) (*Module, error) {
 	if len(errs) > 0 {
 		return nil, fmt.Errorf("load %s: %d type/load errors, first: %s", dir, len(errs), errs[0])
 	}
-	prog, ssaPkgs := ssautil.AllPackages(pkgs, ssa.SanityCheckFunctions)
+	var prog *ssa.Program
+	var ssaPkgs []*ssa.Package
+	if os.Getenv("VERIF_LOAD") == "allsyntax" {
+		prog, ssaPkgs = ssautil.AllPackages(pkgs, ssa.SanityCheckFunctions)
+	} else {
+		// dependencies come from export data (types only, no bodies): the rules never look inside dependencies
+		prog, ssaPkgs = ssautil.Packages(pkgs, ssa.SanityCheckFunctions)
+	}
 	prog.Build()
 	m := &Module{Dir: dir, Fset: fset, Pkgs: pkgs, Prog: prog, SSA: map[string]*ssa.Package{}, Types: map[string]*types.Package{},
 		FuncByKey: map[string]*ssa.Function{}, keyOf: map[*ssa.Function]string{}}
@@ -88,6 +95,13 @@ func Load(dir string, overlay map[string][]byte) (*Module, error) {
 	m.enumerate()
 	m.cha = buildCHA(m)
 	return m, nil
+}
+
+func loadMode() packages.LoadMode {
+	if os.Getenv("VERIF_LOAD") == "allsyntax" {
+		return packages.LoadAllSyntax
+	}
+	return packages.LoadSyntax
 }
 
 // IsRepoPkg reports whether pkg is one of the packages of this module (not a dependency).
